@@ -14,6 +14,14 @@ if ! cargo build --release --offline >"$ROOT/harness/build.log" 2>&1; then
 fi
 cd "$ROOT" || exit 2
 BIN="$ROOT/harness/target/release/pv"
+# properties which run the command-line solver rebuild it from /repo's working tree as well
+case "${1:-}" in
+  C06|C13|C14|C15|C20|replay)
+    if ! "$ROOT/build_cli.sh"; then
+      echo "building the command-line solver failed (see harness/build-cli.log)" >&2
+      exit 2
+    fi ;;
+esac
 case "${1:-}" in
   replay) shift; exec "$BIN" replay "$@" ;;
   "") echo "usage: run.sh <ID> [quick|thorough] | run.sh replay <file>" >&2; exit 2 ;;
